@@ -76,7 +76,12 @@ def modems():
             # the largest orders the modem property names, with the default Gray labeling (5, 6 and 8 bits per symbol: several blocks per row)
             ("PAM64g", 6, lambda: M.PAMModulator(order=64), lambda: M.PAMDemodulator(order=64)),
             ("PSK32g", 5, lambda: M.PSKModulator(order=32), lambda: M.PSKDemodulator(order=32)),
-            ("QAM256g", 8, lambda: M.QAMModulator(order=256), lambda: M.QAMDemodulator(order=256))]
+            ("QAM256g", 8, lambda: M.QAMModulator(order=256), lambda: M.QAMDemodulator(order=256)),
+            # natural-binary labelling at orders above 4 (for two-bit labels the Gray map is its own inverse, so order 4 cannot tell a labelling slip)
+            ("PSK8n", 3, lambda: M.PSKModulator(order=8, gray_coding=False), lambda: M.PSKDemodulator(order=8, gray_coding=False)),
+            ("PSK16n", 4, lambda: M.PSKModulator(order=16, gray_coding=False), lambda: M.PSKDemodulator(order=16, gray_coding=False)),
+            ("QAM16n", 4, lambda: M.QAMModulator(order=16, gray_coding=False), lambda: M.QAMDemodulator(order=16, gray_coding=False)),
+            ("PAM8n", 3, lambda: M.PAMModulator(order=8, gray_coding=False, normalize=False), lambda: M.PAMDemodulator(order=8, gray_coding=False, normalize=False))]
 
 
 def run(run):
